@@ -1,7 +1,397 @@
-from ..model import AnalysisError
+"""C15 - edge-selection policies are obeyed exactly and recorded truthfully (partial).
+
+  R1 exactly one _get_in/out_edge_index() call per routed item on the selector paths; the selector itself
+     consults a generator / callable exactly once and returns the answer unchanged;
+  R2 on nodes that keep a selection history every routed put / get is accompanied by exactly one record, and
+     the recorded value is the index actually used;
+  R3 the range check dominates the indexing of the edge list;
+  R4 FIRST_AVAILABLE scans / reserves in edge order;
+  R5 the round-robin generator starts at 0 and steps with (i + 1) mod len(edges), one step per item;
+  R6 RANDOM draws from the module-level `random` within [0, len − 1];
+  R7 built-in names are wired to the right generator and edge list ("IN" ↔ in_edges, "OUT" ↔ out_edges).
+"""
+from __future__ import annotations
+
+import ast
+
+from .. import nodewalk, paths, tables
+from ..model import AnalysisError, Project, self_attr, walk_no_nested
+from ..report import Result
+from .common import site, src
+
 PROP = 'C15'
 LEVEL = 'other'
 
+UTILS = 'utils/utils.py'
 
-def run(p, tier):
-    raise AnalysisError('rule module for C15 not implemented yet (fail closed)')
+
+def run(p: Project, tier: str) -> Result:
+    r = Result(PROP)
+    r.explanation = ('Selector consulted once per item and obeyed (data flow from the selector call to the indexed edge), recorded value = used '
+                     'index, range check before use, lowest-index idioms for FIRST_AVAILABLE, normal form of the round-robin update. '
+                     'Which reservations trigger in the same instant is not decided.')
+    r.rule('C15.R1', 'one selector consultation per routed item; generator/callable consulted once and obeyed', 12)
+    r.rule('C15.R2', 'every routed put/get is recorded once, with the index actually used', 8)
+    r.rule('C15.R3', 'range check dominates edge-list indexing', 6)
+    r.rule('C15.R4', 'FIRST_AVAILABLE works in edge order', 8)
+    r.rule('C15.R5', 'ROUND_ROBIN: starts at 0, successor (i+1) mod len(edges)', 1)
+    r.rule('C15.R6', 'RANDOM: random.randint(0, len(edges)-1) from the module-level generator', 1)
+    r.rule('C15.R7', 'policy names and IN/OUT are wired to the right selector and edge list', 6)
+    r.not_decided = ['which of several reservations triggers first within one instant (kernel ordering)']
+    for w in nodewalk.walks(p):
+        r.paths += w.npaths
+        check_selectors(p, w, r)
+        check_routing(p, w, r)
+        check_wiring(p, w, r)
+    check_generators(p, r)
+    return r
+
+
+# ------------------------------------------------------------------------------------------- selectors
+def check_selectors(p, w, r):
+    for name, attr, edges in (('_get_out_edge_index', 'out_edge_selection', 'out_edges'), ('_get_in_edge_index', 'in_edge_selection', 'in_edges')):
+        fi = w.methods.get(name)
+        if fi is None:
+            continue
+        r.analysed_functions.add(fi.key)
+        key = f'{fi.key}::consults-once-and-obeys'
+        why = selector_shape(fi, attr)
+        (r.ok if not why else r.fail)('C15.R1', key, 'int → itself; generator → next() once; callable → one call; returned unchanged' if not why else why,
+                                      src(fi.module), fi.node.lineno)
+        # range assertion inside the selector (R3, first alternative)
+        has_hist = f"self.stats['{attr}']" in ast.unparse(fi.node)
+        if has_hist:
+            k2 = f'{fi.key}::records-returned-value'
+            ret = [n for n in walk_no_nested(fi.node) if isinstance(n, ast.Return) and n.value is not None]
+            apps = [n for n in walk_no_nested(fi.node) if isinstance(n, ast.Call) and ast.unparse(n.func) == f"self.stats['{attr}'].append"]
+            ok = len(apps) == 1 and ret and all(ast.unparse(x.value) == ast.unparse(apps[0].args[0]) for x in ret)
+            (r.ok if ok else r.fail)('C15.R2', k2, 'appends exactly the value it returns' if ok else
+                                     'the selector does not record exactly the value it returns', src(fi.module), fi.node.lineno)
+
+
+def selector_shape(fi, attr):
+    sel = f'self.{attr}'
+    body = fi.node.body
+    top = [n for n in body if isinstance(n, ast.If)]
+    if not top:
+        return 'no dispatch on the selection policy'
+    branches = []
+    n = top[0]
+    while True:
+        branches.append((n.test, n.body))
+        if len(n.orelse) == 1 and isinstance(n.orelse[0], ast.If):
+            n = n.orelse[0]
+        else:
+            branches.append((None, n.orelse))
+            break
+    seen = set()
+    retvar = None
+    for test, blk in branches:
+        t = ast.unparse(test) if test is not None else 'else'
+        calls = [c for s_ in blk for c in ast.walk(s_) if isinstance(c, ast.Call)]
+        if test is not None and 'isinstance' in t and 'int' in t:
+            val = [s_ for s_ in blk if isinstance(s_, (ast.Assign, ast.Return))]
+            if not val or ast.unparse(val[0].value) != sel:
+                return 'constant index branch does not use the configured index'
+            seen.add('int')
+        elif test is not None and '__next__' in t:
+            nx = [c for c in calls if isinstance(c.func, ast.Name) and c.func.id == 'next']
+            if len(nx) != 1 or ast.unparse(nx[0].args[0]) != sel:
+                return f'generator branch consults the generator {len(nx)} time(s)'
+            seen.add('gen')
+        elif test is not None and 'callable' in t:
+            cl = [c for c in calls if ast.unparse(c.func) == sel]
+            if len(cl) != 1:
+                return f'callable branch calls the user function {len(cl)} time(s)'
+            seen.add('call')
+        elif test is None:
+            if not any(isinstance(s_, ast.Raise) for s_ in blk):
+                return 'unsupported selector type is not rejected'
+    if seen != {'int', 'gen', 'call'}:
+        return f'dispatch covers {sorted(seen)}, expected int / generator / callable'
+    # the value must reach the return unchanged: no arithmetic on the result variable
+    for n2 in walk_no_nested(fi.node):
+        if isinstance(n2, ast.Return) and n2.value is not None and not isinstance(n2.value, (ast.Name, ast.Attribute)):
+            return f'returns `{ast.unparse(n2.value)}`, not the answer itself'
+        if isinstance(n2, ast.AugAssign):
+            return 'the answer is modified before it is returned'
+        if isinstance(n2, ast.Assign) and isinstance(n2.value, ast.BinOp):
+            return f'the answer is transformed (`{ast.unparse(n2)}`): wrapped instead of obeyed / rejected'
+    return None
+
+
+# ------------------------------------------------------------------------------------------- routing
+def hist_attrs(w):
+    """history keys this node class keeps: subset of {'in_edge_selection','out_edge_selection'} present in the stats dict literal."""
+    out = set()
+    init = w.ci.methods.get('__init__')
+    if init is None:
+        return out
+    txt = ast.unparse(init.node)
+    for k in ('in_edge_selection', 'out_edge_selection'):
+        if f"'{k}': []" in txt:
+            out.add(k)
+    return out
+
+
+def check_routing(p, w, r):
+    hist = hist_attrs(w)
+    for root, ps in w.roots.items():
+        fi = w.root_funcs[root]
+        if root in ('_push_item', '_pull_item'):
+            continue
+        r.analysed_functions.add(fi.key)
+        for side, sel, edges, hkey, route_ops in (('out', '_get_out_edge_index', 'out_edges', 'out_edge_selection', ('put',)),
+                                                  ('in', '_get_in_edge_index', 'in_edges', 'in_edge_selection', ('get',))):
+            bad1 = bad3 = None
+            bad2 = {}
+            hist_cfgs = set()
+            n_sel = n_fa = 0
+            for pa in ps:
+                if pa.raises or pa.status == 'loopcut':
+                    continue
+                evs = pa.events
+                sel_calls = [e for e in evs if e.kind == 'call' and e.name == sel]
+                explicit = [e for e in evs if e.kind == 'xcall' and e.name == f"self.stats['{hkey}'].append"]
+                if side == 'out':
+                    routed = [e for e in evs if (e.kind == 'pcall' and e.name == 'put') or (e.kind == 'spawn' and e.func == 'self._push_item')]
+                else:
+                    routed = [e for e in evs if e.kind == 'pcall' and e.name == 'get' and routed_from_edges(e, edges)]
+                if side == 'in' and w.ci.name == 'Combiner':
+                    continue        # the combiner takes from every in-edge by recipe (C16), it has no in-edge policy
+                if not routed and not sel_calls:
+                    continue
+                # R1: one selector call per routed item on selector paths (discarded items also consumed one decision)
+                disc = [e for e in evs if e.kind == 'setitem' and 'num_item_discarded' in e.target] if side == 'out' else []
+                fa_routed = [e for e in routed if uses_first_available(e, evs, edges)]
+                sel_routed = [e for e in routed if e not in fa_routed]
+                if sel_calls or sel_routed:
+                    n_sel += 1
+                    fa_disc = len([e for e in evs if e.kind == 'first_available' and e.outcome == 'none'])
+                    decided = len(sel_routed) + (len(disc) - fa_disc)
+                    if len(sel_calls) != decided:
+                        bad1 = (pa, f'{len(sel_calls)} call(s) of {sel}() for {decided} item(s) routed by the policy on this path')
+                    # obeyed: the edge used is <edges>[<result of the call>]
+                    for e in sel_routed:
+                        ev_edge = e.recv_val if e.kind == 'pcall' else (e.args[1] if len(e.args) > 1 else None)
+                        if not (ev_edge is not None and ev_edge[0] == 'sub' and ev_edge[1] == ('self', edges)
+                                and ev_edge[2][0] == 'sym' and ev_edge[2][1] == f'call:{sel}'):
+                            bad1 = (pa, f'the edge used at line {e.line} is {short(ev_edge)}, not self.{edges}[{sel}()]')
+                    # R3: range check between the call and the use
+                    for c in sel_calls:
+                        ci_ = evs.index(c)
+                        if not range_checked(w, sel, edges, evs, ci_):
+                            bad3 = (pa, f'no range check of the index returned by {sel}() before self.{edges}[...] is indexed')
+                if fa_routed:
+                    n_fa += 1
+                # R2: history
+                if hkey in hist:
+                    cfg = config_label(evs, side)
+                    hist_cfgs.add(cfg)
+                    recorded = len(explicit) + len(sel_calls)
+                    want = len(routed) + (len(disc) - len([e for e in evs if e.kind == 'first_available' and e.outcome == 'none']) if side == 'out' else 0)
+                    if recorded != want:
+                        bad2.setdefault(cfg, (pa, f'{want} routing decision(s) but {recorded} record(s) in stats["{hkey}"] on this path '
+                                                  f'(the recorded history differs from the routing that happened)'))
+                    for x in explicit:
+                        v = x.args[0] if x.args else None
+                        used = [e for e in routed if e.kind == 'pcall' and e.recv_val is not None and e.recv_val[0] == 'sub' and e.recv_val[2] == v]
+                        if not used:
+                            bad2.setdefault(cfg, (pa, f'the value recorded at line {x.line} ({short(v)}) is not the index of the edge that is used'))
+            base = f'{fi.key}::{side}'
+            if n_sel:
+                (r.ok if not bad1 else r.fail)('C15.R1', f'{base}-selector-per-item', 'one consultation per routed item, answer used as the index' if not bad1 else bad1[1],
+                                               src(fi.module), fi.node.lineno, *([bad1[0].describe()] if bad1 else []))
+                (r.ok if not bad3 else r.fail)('C15.R3', f'{base}-range-check', 'range check dominates the indexing' if not bad3 else bad3[1],
+                                               src(fi.module), fi.node.lineno, *([bad3[0].describe()] if bad3 else []))
+            if hkey in hist and (n_sel or n_fa):
+                for cfg in sorted(hist_cfgs):
+                    b = bad2.get(cfg)
+                    (r.ok if not b else r.fail)('C15.R2', f'{base}-history[{cfg}]', 'one truthful record per routing decision' if not b else b[1],
+                                                src(fi.module), fi.node.lineno, *([b[0].describe()] if b else []))
+        # R4 FIRST_AVAILABLE order
+        seen = {}
+        for pa in ps:
+            if pa.raises:
+                continue
+            for e in pa.events:
+                if e.kind == 'first_available':
+                    k = site(e.fi, e.node, 'first-available-scan', same=lambda n: isinstance(n, ast.For))
+                    seen.setdefault(k, (e, e.iter in ('self.out_edges', 'self.in_edges'), f'scans `{e.iter}`'))
+                if e.kind == 'pcall' and e.d.get('over'):
+                    k = site(e.fi, e.node, f'first-available-reserve:{e.name}')
+                    seen.setdefault(k, (e, e.over in ('self.out_edges', 'self.in_edges'), f'reserves over `{e.over}`'))
+        for k, (e, ok, what) in sorted(seen.items()):
+            (r.ok if ok else r.fail)('C15.R4', k, f'{what} in edge order' if ok else f'{what}: not the node\'s edge list in index order (lowest index no longer wins)',
+                                     src(e.fi.module), e.line)
+
+
+def config_label(evs, side):
+    sel = 'out_edge_selection' if side == 'out' else 'in_edge_selection'
+    fa = None
+    blk = None
+    for e in evs:
+        if e.kind == 'cond' and not e.d.get('synthetic'):
+            if e.text == f"self.{sel} == 'FIRST_AVAILABLE'" and fa is None:
+                fa = e.polarity
+            if e.text == 'self.blocking' and blk is None:
+                blk = e.polarity
+    a = {True: 'first-available', False: 'policy', None: 'any-policy'}[fa]
+    if side == 'in':
+        return a
+    return a + ',' + {True: 'blocking', False: 'non-blocking', None: 'any-mode'}[blk]
+
+
+def routed_from_edges(e, edges):
+    return True
+
+
+def uses_first_available(e, evs, edges):
+    if e.kind == 'spawn':
+        v = e.args[1] if len(e.args) > 1 else None
+        return v is not None and v[0] == 'first-avail'
+    a0 = e.args[0] if e.args else None
+    return a0 is not None and a0[0] == 'found'
+
+
+def range_checked(w, sel, edges, evs, ci_):
+    fi = w.methods.get(sel)
+    if fi is not None:
+        for n in walk_no_nested(fi.node):
+            if isinstance(n, ast.Assert) and is_range_test(n.test, edges):
+                return True
+    for e in evs[ci_ + 1:]:
+        if e.kind == 'assert' and is_range_test(e.d['node'].test, edges):
+            return True
+        if e.kind == 'cond' and not e.d.get('synthetic') and e.d.get('node') is not None:
+            t = ast.unparse(e.d['node']).replace(' ', '')
+            if f'>=len(self.{edges})' in t and e.polarity is False:
+                return True
+        if (e.kind == 'pcall' and e.name in ('reserve_put', 'reserve_get', 'can_put')) or e.kind == 'spawn':
+            return False
+    return False
+
+
+def is_range_test(t, edges):
+    s_ = ast.unparse(t).replace(' ', '')
+    return ('0<=' in s_ and f'<len(self.{edges})' in s_)
+
+
+def short(v):
+    s_ = repr(v)
+    return s_ if len(s_) < 80 else s_[:77] + '...'
+
+
+# ------------------------------------------------------------------------------------------- wiring
+def check_wiring(p, w, r):
+    fi = w.methods.get('reset')
+    if fi is None:
+        return
+    r.analysed_functions.add(fi.key)
+    for attr, tag, edges in (('out_edge_selection', 'OUT', 'out_edges'), ('in_edge_selection', 'IN', 'in_edges')):
+        assigns = [n for n in walk_no_nested(fi.node) if isinstance(n, ast.Assign) and any(self_attr(t) == attr for t in n.targets)
+                   and isinstance(n.value, ast.Call) and ast.unparse(n.value.func).endswith('get_edge_selector')]
+        if not assigns:
+            continue
+        key = f'{fi.key}::{attr}-wiring'
+        c = assigns[0].value
+        args = [ast.unparse(a) for a in c.args]
+        ok = len(args) >= 4 and args[0] == f'self.{attr}' and args[1] == 'self' and args[3].strip('\'"') == tag
+        # constant index validated against the same edge list
+        asserts = [n for n in walk_no_nested(fi.node) if isinstance(n, ast.Assert) and f'self.{attr}' in ast.unparse(n.test)]
+        ok2 = any(is_range_test(a.test, edges) for a in asserts)
+        if ok and ok2:
+            r.ok('C15.R7', key, f'get_edge_selector(self.{attr}, self, env, "{tag}"); constant index asserted within len(self.{edges})', src(fi.module), fi.node.lineno)
+        elif not ok:
+            r.fail('C15.R7', key, f'policy name of {attr} is resolved with arguments {args} (expected self.{attr}, self, env, "{tag}")', src(fi.module), assigns[0].lineno)
+        else:
+            r.fail('C15.R7', key, f'a constant {attr} is not range-checked against len(self.{edges}) at start-up: an out-of-range index is not rejected',
+                   src(fi.module), fi.node.lineno)
+
+
+def check_generators(p, r):
+    if UTILS not in p.modules:
+        raise AnalysisError('anchor vanished: utils/utils.py')
+    m = p.modules[UTILS]
+    rr = m.functions.get('RoundRobin_edge_selector')
+    rnd = m.functions.get('Random_edge_selector')
+    ges = m.functions.get('get_edge_selector')
+    if rr is None or rnd is None or ges is None:
+        raise AnalysisError('anchor vanished: edge selector generators')
+    for f in (rr, rnd, ges):
+        r.analysed_functions.add(f.key)
+    # ---- round robin
+    key = f'{rr.key}::successor'
+    why = round_robin_shape(rr)
+    (r.ok if not why else r.fail)('C15.R5', key, 'i = 0; yield i; i = (i + 1) % len(<edge_type>_edges)' if not why else why, src(UTILS), rr.node.lineno)
+    # ---- random
+    key = f'{rnd.key}::range'
+    why = random_shape(rnd)
+    (r.ok if not why else r.fail)('C15.R6', key, 'random.randint(0, len(edges) - 1)' if not why else why, src(UTILS), rnd.node.lineno)
+    # ---- names → generators
+    key = f'{ges.key}::strategy-table'
+    table = None
+    for n in walk_no_nested(ges.node):
+        if isinstance(n, ast.Assign) and isinstance(n.value, ast.Dict):
+            table = {ast.literal_eval(k): ast.unparse(v) for k, v in zip(n.value.keys, n.value.values) if isinstance(k, ast.Constant)}
+    ok = table is not None and table.get('ROUND_ROBIN') == 'RoundRobin_edge_selector' and table.get('RANDOM') == 'Random_edge_selector'
+    rejects = any(isinstance(n, ast.Raise) for n in walk_no_nested(ges.node))
+    lower = any(isinstance(n, ast.Assign) and ast.unparse(n.value) == 'edge_type.lower()' for n in walk_no_nested(ges.node))
+    if ok and rejects and lower:
+        r.ok('C15.R7', key, 'ROUND_ROBIN / RANDOM mapped to their generators, unknown names rejected, edge_type lower-cased', src(UTILS), ges.node.lineno)
+    else:
+        r.fail('C15.R7', key, f'strategy table {table} / rejection of unknown names / edge_type normalisation changed', src(UTILS), ges.node.lineno)
+
+
+def edges_binding(fn):
+    """name bound to getattr(node, f"{edge_type}_edges") inside the generator loop"""
+    for n in walk_no_nested(fn.node):
+        if isinstance(n, ast.Assign) and isinstance(n.value, ast.Call) and isinstance(n.value.func, ast.Name) and n.value.func.id == 'getattr':
+            a = n.value.args
+            if len(a) >= 2 and isinstance(a[0], ast.Name) and a[0].id == fn.node.args.args[0].arg and isinstance(a[1], ast.JoinedStr) \
+                    and ast.unparse(a[1]) in ("f'{edge_type}_edges'", 'f"{edge_type}_edges"'):
+                return n.targets[0].id
+    return None
+
+
+def round_robin_shape(fn):
+    body = fn.node.body
+    init = [n for n in body if isinstance(n, ast.Assign)]
+    loops = [n for n in body if isinstance(n, ast.While)]
+    if len(init) != 1 or len(loops) != 1:
+        return 'expected one initialisation and one loop'
+    i = ast.unparse(init[0].targets[0])
+    if not (isinstance(init[0].value, ast.Constant) and init[0].value.value == 0):
+        return f'the counter starts at {ast.unparse(init[0].value)}, not at 0'
+    ed = edges_binding(fn)
+    if ed is None:
+        return 'the edge list is not read from the node with getattr(node, f"{edge_type}_edges")'
+    lb = loops[0].body
+    ys = [k for k, n in enumerate(lb) if isinstance(n, ast.Expr) and isinstance(n.value, ast.Yield)]
+    ups = [k for k, n in enumerate(lb) if isinstance(n, (ast.Assign, ast.AugAssign)) and ast.unparse(n.targets[0] if isinstance(n, ast.Assign) else n.target) == i]
+    if len(ys) != 1 or ast.unparse(lb[ys[0]].value.value) != i:
+        return 'the loop does not yield the counter exactly once per step'
+    if len(ups) != 1 or not isinstance(lb[ups[0]], ast.Assign):
+        return 'the counter is not updated exactly once per step'
+    if ups[0] < ys[0]:
+        return 'the counter is advanced before it is yielded (the cycle starts at 1)'
+    v = lb[ups[0]].value
+    ok = isinstance(v, ast.BinOp) and isinstance(v.op, ast.Mod) and isinstance(v.left, ast.BinOp) and isinstance(v.left.op, ast.Add) \
+        and {ast.unparse(v.left.left), ast.unparse(v.left.right)} == {i, '1'} and ast.unparse(v.right) == f'len({ed})'
+    if not ok:
+        return f'successor is `{ast.unparse(v)}`, expected ({i} + 1) % len({ed})'
+    return None
+
+
+def random_shape(fn):
+    ed = edges_binding(fn)
+    if ed is None:
+        return 'the edge list is not read from the node with getattr(node, f"{edge_type}_edges")'
+    ys = [n for n in walk_no_nested(fn.node) if isinstance(n, ast.Yield)]
+    if len(ys) != 1:
+        return 'expected one yield'
+    v = ys[0].value
+    t = ast.unparse(v).replace(' ', '')
+    if t in (f'random.randint(0,len({ed})-1)', f'random.randrange(len({ed}))', f'random.randrange(0,len({ed}))'):
+        return None
+    return f'draws `{ast.unparse(v)}`, expected random.randint(0, len({ed}) - 1) from the module-level generator'
